@@ -461,7 +461,15 @@ func (s *scheduler) describeBlocked() string {
 			n++
 		}
 	}
-	return fmt.Sprintf(" (%d live goroutines)", n)
+	out := fmt.Sprintf(" (%d live goroutines)", n)
+	if blockedOn {
+		for _, t := range s.threads {
+			if !t.done {
+				out += fmt.Sprintf("\n\t%s blocked=%v at:%s", t.name, t.blocked != nil, t.where)
+			}
+		}
+	}
+	return out
 }
 
 // inputTerms lists the terms whose values make up a replay.
@@ -492,6 +500,9 @@ func (w *Worker) report(i *interpreter, p *pathState, f *Finding, extra string) 
 	f.Path = append([]int32(nil), p.taken...)
 	f.Nondet = append([]int32(nil), p.nondet...)
 	f.Threads = len(i.S.threads)
+	if blockedOn {
+		fmt.Fprintf(os.Stderr, "finding %q: threads%s\n", f.Label, i.S.describeBlocked())
+	}
 	ex.mu.Lock()
 	cnt := ex.findingCount[f.Key()]
 	ex.findingCount[f.Key()]++
